@@ -26,6 +26,8 @@ func main() {
 		tcpMain(os.Args[2:])
 	case "crash":
 		crashMain(os.Args[2:])
+	case "conc":
+		concMain(os.Args[2:])
 	default:
 		fmt.Fprintln(os.Stderr, "unknown mode", os.Args[1])
 		os.Exit(2)
